@@ -570,3 +570,26 @@ def resolve_const_bytes(b, o):
         else:
             return None
     return None
+
+
+
+def closure_tree(ctx, b):
+    """b and, recursively, the closures handed to calls made in it (iterator adaptors, retain,
+    with_connection ...): what `b` executes besides its own blocks"""
+    out = [b]; seen = {b.fn}
+    k = 0
+    while k < len(out):
+        for _, t in out[k].calls():
+            for c in t.get("clos") or []:
+                cb = ctx.prog.bodies.get(c)
+                if cb is not None and c not in seen:
+                    seen.add(c); out.append(cb)
+        k += 1
+    return out
+
+
+def deep_calls(ctx, b):
+    """(body, bb, terminator) for every call in b and in its closure tree"""
+    for body in closure_tree(ctx, b):
+        for i, t in body.calls():
+            yield body, i, t
